@@ -97,6 +97,10 @@ def solveQuadratic (abc : Rat × Rat × Rat) (r : Option Rat) : Option (Rat × R
 def absQ (q : Rat) : Rat := if 0 ≤ q then q else -q
 def maxQ (a b : Rat) : Rat := if a ≤ b then b else a
 
+/-- the double nearest to `1e-6`, exactly (the literal of `_solve_another_fractional_distance`; fixed by the tie theorem
+`Tie.tie_solve_another` against the translated source: 1/10^6 is not a double) -/
+def tiny6 : Rat := mkRat 4722366482869645 4722366482869645213696
+
 /-- `_solve_another_fractional_distance(f, (y_1, y_2, y_3, y_4), out_y)`; a denominator that is tiny against the y-extent
 of the two sides is treated as ill-conditioned (NaN) -/
 def solveAnother (f : Option Rat) (y1 y2 y3 y4 oy : Rat) : Option Rat :=
@@ -106,7 +110,7 @@ def solveAnother (f : Option Rat) (y1 y2 y3 y4 oy : Rat) : Option Rat :=
     let y21 := y2 - y1
     let y43 := y4 - y3
     let den := y3 + y43 * f - y1 - y21 * f
-    if absQ den ≤ (1/1000000 : Rat) * maxQ (absQ y21) (absQ y43) then none
+    if absQ den ≤ tiny6 * maxQ (absQ y21) (absQ y43) then none
     else keep01 (divQ (oy - y1 - y21 * f) den)
 
 /-- a branch result: (t, s) both valid -/
